@@ -1,6 +1,6 @@
 (* C03 — a task resumes only when all it awaits is done; start order; exactly once per yield.
    Statements only; proofs in proofs/ProgProofs.v, proofs/MachineC02.v, proofs/MachineSteps.v, proofs/MachineC02S.v and
-   proofs/MachineC03T.v.
+   proofs/MachineC03T.v, proofs/MachineC03L.v.
    Proved: (1) the dependencies derived from a yielded structure are exactly its futures, in reverse
    written order for list/tuple structures (with the LIFO task stack: tasks first scheduled together
    start in the order written); (2) on the machine, for tree programs, the scheduler resumes a task
@@ -39,14 +39,27 @@
    are a fuel n and an outcome o with mode MDone o at n, and o = Seq.eval p (C03_terminates_without_flush_tree);
    C03_termination_demos: both hypotheses hold for a concrete program with nested tasks, and c01_demo (which
    needs flushes) ends its first pass after 17 steps and is done within 41.
+   (7) LIVENESS, second part (proofs/MachineC03L.v; same setting): (a) ACYCLICITY - dependencies are younger than
+   the task that awaits them, in every configuration of a clean run (C03_dependencies_are_younger_tree; the
+   invariant is MachineC01S.SI); (b) FLUSH PROGRESS - at a flush point (a pass ended with the awaited task
+   uncomputed) the stuck set of MachineC04B contains a batch item (C03_stuck_set_has_item: well-founded descent
+   on top_next - id, no classical logic), that item is uncomputed and lies in a scheduled pending batch
+   (C03_flush_point_has_item_tree), so _select_batch_to_flush finds a batch and the step computes at least one
+   item that was not computed, losing nothing (C03_flush_makes_progress_tree); (c) an UNCONDITIONAL CRITERION for
+   the no-flush hypothesis of (6c): item-free programs ([noitem] = tree without FItem) never hold a batch item
+   in the heap (C03_noitem_heap_has_no_item; invariant NIc preserved by every step), so no pass ends with the
+   root uncomputed (C03_noitem_never_flushes) and the computation TERMINATES with the sequential outcome under
+   the guard hypothesis alone (C03_noitem_terminates; C03_noitem_termination_demo: a concrete program with
+   nested tasks, a lazy future, a constant, a context and a caught exception, guard hypothesis proved for every
+   fuel).
    NOT proved (correspondence, monitors and the watchdog only): TERMINATION IN GENERAL - that for every tree
-   program there is a fuel at which the run is done.  Missing: (i) a flush at the end of a pass makes progress
-   (the stuck set of MachineC04B contains an item of a scheduled pending batch: needs acyclicity of the
-   dependency lists, e.g. "dependencies have larger ids"), (ii) the LATER passes terminate (their stack entries
-   are suspended tasks rather than fresh ones; the induction of (b) is over the program of a freshly started
-   task), (iii) a measure bounding the number of passes (the remaining cost along the actual path, which is a
-   natural number because the outcomes are determined by Seq.eval), and (iv) a syntactic criterion for the
-   no-flush hypothesis of (c) (e.g. no FItem leaf).  Also not proved: never-started for never-awaited tasks,
+   program WITH batch items there is a fuel at which the run is done.  Items (i) "a flush makes progress" and
+   (iv) "syntactic criterion for the no-flush hypothesis" of the earlier list are now proved (7b, 7c).  Still
+   missing: (ii) the LATER passes terminate (after a flush the stack entries are suspended tasks rather than
+   fresh ones; the induction of (6b) is over the program of a freshly started task), and (iii) a measure
+   bounding the number of passes (e.g. the number of uncomputed allocated futures plus the remaining cost along
+   the actual path; (7b) shows each flush strictly increases the set of computed futures, but later passes
+   also allocate new futures).  Also not proved: never-started for never-awaited tasks,
    no-step-after-done for programs outside stree (stored handles, value() on existing futures) without the
    guard hypothesis, and after a computation that was cut off by the fuel or by the runaway guard. *)
 From Asynq Require Import Machine Seq proofs.ProgProofs proofs.MachineC08 proofs.MachineC01 proofs.MachineC02
@@ -229,3 +242,105 @@ Theorem C03_termination_demos :
    eval c03t_demo = Ok (VTuple [VTuple [VInt 7; VInt 1]; VInt 9; VInt 3])).
 Proof. exact (conj c03t_demo_tree c03t_demo_runs). Qed.
 Print Assumptions C03_termination_demos.
+
+(* ==== liveness, second part (proofs/MachineC03L.v) ==== *)
+From Asynq Require Import proofs.MachineC04 proofs.MachineC01S proofs.MachineC04S proofs.MachineC03L.
+
+(* ACYCLICITY: dependencies are younger.  In every configuration of a clean run (not MStuck), a task entry
+   [a] (computed or not) has only dependencies whose creation number (fnum d = head of the id) is greater than
+   a; an allocated dependency is [b] with a < b.  (The invariant is MachineC01S.SI, preserved by step.) *)
+Theorem C03_dependencies_are_younger_tree : forall P p n,
+  pointwise P -> tree p ->
+  let h := fst (create [] (FTask p) (st0 P)) in
+  let s1 := snd (create [] (FTask p) (st0 P)) in
+  no_unwind P n (start h s1) -> c_mode (run P n (start h s1)) <> MStuck ->
+  forall t o tk, get t (c_st (run P n (start h s1))) = Some (mkFut o (KTask tk)) ->
+  exists a, t = [a] /\ (0 <= a < top_next (c_st (run P n (start h s1))))%Z /\
+    forall d, In d (tk_deps tk) -> (a < fnum d)%Z /\
+      forall f, get d (c_st (run P n (start h s1))) = Some f -> exists b, d = [b] /\ (a < b)%Z.
+Proof. exact deps_are_younger_tree. Qed.
+Print Assumptions C03_dependencies_are_younger_tree.
+
+(* the greatest member of a stuck set is a batch item: if dependencies are younger, ids are below top_next and
+   every member of S is stuck in the sense of MachineC04.S_ok, every member of S leads to a batch item in S *)
+Theorem C03_stuck_set_has_item : forall (s : st) (S : fid -> Prop),
+  deps_younger s -> (forall d f, get d s = Some f -> (fnum d < top_next s)%Z) ->
+  (forall d, S d -> S_ok S s d) ->
+  forall d, S d -> exists e kind idx key a, S e /\ get e s = Some (mkFut None (KItem kind idx key a)).
+Proof. exact stuck_has_item. Qed.
+Print Assumptions C03_stuck_set_has_item.
+
+(* at a flush point (a pass has ended, the awaited task is not computed) the heap holds an uncomputed batch
+   item whose batch is scheduled, pending and contains it *)
+Theorem C03_flush_point_has_item_tree : forall P p n,
+  pointwise P -> tree p ->
+  let h := fst (create [] (FTask p) (st0 P)) in
+  let s1 := snd (create [] (FTask p) (st0 P)) in
+  no_unwind P n (start h s1) -> c_mode (run P n (start h s1)) = MAfterExec ->
+  computed h (c_st (run P n (start h s1))) = false ->
+  exists e kind idx key a, get e (c_st (run P n (start h s1))) = Some (mkFut None (KItem kind idx key a)) /\
+    In (kind, idx) (sb (c_st (run P n (start h s1)))) /\
+    In e (b_items (get_batch (kind, idx) (c_st (run P n (start h s1))))) /\
+    b_done (get_batch (kind, idx) (c_st (run P n (start h s1)))) = false.
+Proof. exact flush_point_has_item_tree. Qed.
+Print Assumptions C03_flush_point_has_item_tree.
+
+(* FLUSH PROGRESS: the step taken at a flush point goes back to the head of wait_for (the scheduler found a
+   batch to flush) and computes at least one batch item that was not computed; nothing computed is lost *)
+Theorem C03_flush_makes_progress_tree : forall P p n,
+  pointwise P -> tree p ->
+  let h := fst (create [] (FTask p) (st0 P)) in
+  let s1 := snd (create [] (FTask p) (st0 P)) in
+  no_unwind P n (start h s1) -> c_mode (run P n (start h s1)) = MAfterExec ->
+  computed h (c_st (run P n (start h s1))) = false ->
+  c_mode (run P (S n) (start h s1)) = MWaitHead /\
+  (exists d, computed d (c_st (run P n (start h s1))) = false /\ computed d (c_st (run P (S n) (start h s1))) = true /\
+     exists kind idx key a, get d (c_st (run P n (start h s1))) = Some (mkFut None (KItem kind idx key a))) /\
+  (forall x, computed x (c_st (run P n (start h s1))) = true -> computed x (c_st (run P (S n) (start h s1))) = true).
+Proof. exact flush_makes_progress_tree. Qed.
+Print Assumptions C03_flush_makes_progress_tree.
+
+(* ITEM-FREE programs ([noitem]: tree programs without FItem, for all outcomes passed to the continuations) *)
+Theorem C03_noitem_is_tree : forall p, noitem p -> tree p.
+Proof. exact noitem_tree. Qed.
+Print Assumptions C03_noitem_is_tree.
+
+Theorem C03_noitem_heap_has_no_item : forall P p n,
+  noitem p ->
+  let h := fst (create [] (FTask p) (st0 P)) in
+  let s1 := snd (create [] (FTask p) (st0 P)) in
+  forall u o kind idx key a, get u (c_st (run P n (start h s1))) <> Some (mkFut o (KItem kind idx key a)).
+Proof. exact noitem_heap_has_no_item. Qed.
+Print Assumptions C03_noitem_heap_has_no_item.
+
+(* the no-flush hypothesis of C03_terminates_without_flush_tree holds for item-free programs *)
+Theorem C03_noitem_never_flushes : forall P p,
+  pointwise P -> noitem p ->
+  let h := fst (create [] (FTask p) (st0 P)) in
+  let s1 := snd (create [] (FTask p) (st0 P)) in
+  forall n, no_unwind P n (start h s1) -> c_mode (run P n (start h s1)) = MAfterExec ->
+    computed h (c_st (run P n (start h s1))) = true.
+Proof. exact noitem_never_flushes. Qed.
+Print Assumptions C03_noitem_never_flushes.
+
+(* TERMINATION of item-free programs, under the guard hypothesis only *)
+Theorem C03_noitem_terminates : forall P p,
+  pointwise P -> noitem p ->
+  let h := fst (create [] (FTask p) (st0 P)) in
+  let s1 := snd (create [] (FTask p) (st0 P)) in
+  (forall n, no_unwind P n (start h s1)) ->
+  exists n, c_mode (run P n (start h s1)) = MDone (eval p).
+Proof. exact noitem_terminates. Qed.
+Print Assumptions C03_noitem_terminates.
+
+(* non-vacuity: c03l_demo (nested tasks, a lazy future, a constant, a task inside a context that catches the
+   exception of the task it awaits) is item-free, its run never unwinds (for EVERY fuel), and the theorem gives
+   its termination with the sequential outcome *)
+Theorem C03_noitem_termination_demo :
+  let P := mkP [] 1000 false [] in
+  let h := fst (create [] (FTask c03l_demo) (st0 P)) in
+  let s1 := snd (create [] (FTask c03l_demo) (st0 P)) in
+  pointwise P /\ noitem c03l_demo /\ (forall n, no_unwind P n (start h s1)) /\
+  exists n, c_mode (run P n (start h s1)) = MDone (Ok (VTuple [VTuple [VInt 7; VInt 1]; VInt 9; VInt 42])).
+Proof. exact c03l_demo_terminates. Qed.
+Print Assumptions C03_noitem_termination_demo.
